@@ -112,8 +112,13 @@ class ArgsRaisesError(Exception):
         raise ZeroDivisionError("args")
 
 
-def hostile(rng):
-    k = rng.randrange(23)
+N_HOSTILE = 23
+
+
+def hostile(rng, k=None):
+    """one of the N_HOSTILE special shapes (k given: that one - the corpus that runs first in every collector check)"""
+    if k is None:
+        k = rng.randrange(N_HOSTILE)
     if k == 21:
         return {BadStr(): "value of an unprintable key", "plain": 1}
     if k == 22:
